@@ -25,6 +25,7 @@ type c11step struct {
 	Announce  bool // rotate by new_session_created instead of by rejecting (no rejection expected)
 	LateFirst bool // release the withheld answers before the rejected ones are answered
 	Twice     bool // the server rotates a second time as soon as it has rejected something under the first new salt
+	Times     int  // ... and that many more times, each as soon as the next rejection is out (a request is rejected again and again)
 }
 
 type c11history struct {
@@ -78,6 +79,9 @@ func c11histories(c *wk.Ctx) []c11history {
 		c11history{MemStore: true, Steps: []c11step{{Rejected: 1, Twice: true}}, Kinds: []string{"object"}},
 		c11history{MemStore: true, Steps: []c11step{{Accepted: 1, Rejected: 2, Twice: true}, {Rejected: 1, Twice: true}}, Kinds: rpcKinds},
 		c11history{Steps: []c11step{{Rejected: 2, Twice: true}}, Kinds: rpcKinds},
+		c11history{Steps: []c11step{{Rejected: 1, Times: 5}}, Kinds: []string{"object"}},
+		c11history{Steps: []c11step{{Accepted: 1, Rejected: 2, Times: 8}}, Kinds: rpcKinds},
+		c11history{Fresh: true, Steps: []c11step{{Rejected: 1, Times: 4}, {Rejected: 1, Times: 12}}, Kinds: rpcKinds},
 		c11history{MemStore: true, Steps: []c11step{{Rejected: 1}, {Announce: true, Accepted: 1}}, Kinds: rpcKinds},
 		c11history{MemStore: true, Fresh: true, Steps: []c11step{{Accepted: 1, Rejected: 2}}, Kinds: rpcKinds},
 		c11history{StoreBroken: true, Steps: []c11step{{Rejected: 1}}, Kinds: []string{"object"}},
@@ -334,27 +338,47 @@ func c11case(c *wk.Ctx, idx int, r *rand.Rand, h c11history) {
 		rejectedBefore := rejectedFrames
 		mu.Unlock()
 		launch(st.Rejected, false, &wgR)
-		if st.Twice && st.Rejected > 0 && !st.Announce {
-			// two rotations close together: as soon as the first rejection is out, the salt changes again; what ends up
-			// in the store is the salt in force at the end
-			for w := 0; w < 3000; w++ {
+		more := st.Times
+		if st.Twice && more == 0 {
+			more = 1
+		}
+		for t := 0; t < more && st.Rejected > 0 && !st.Announce; t++ {
+			// rotations close together: as soon as the next rejection is out, the salt changes again; what ends up in the
+			// store is the salt in force at the end, and every call still gets its answer however often it was rejected
+			seen := false
+			for w := 0; w < 3000 && !seen; w++ {
 				mu.Lock()
-				seen := rejectedFrames > rejectedBefore
-				mu.Unlock()
+				seen = rejectedFrames > rejectedBefore
 				if seen {
-					break
+					rejectedBefore = rejectedFrames
 				}
-				time.Sleep(time.Millisecond)
+				mu.Unlock()
+				if !seen {
+					time.Sleep(time.Millisecond)
+				}
+			}
+			if !seen {
+				break // the re-sent request got through under the current salt: nothing left to reject
 			}
 			newSalt = int64(r.Uint64())
 			saltTrail = append(saltTrail, newSalt)
 			e.srv.SetSalt(e.key, newSalt)
-			e.w.emit("srv.rotate", map[string]interface{}{"salt": fmt.Sprint(newSalt), "second": true})
-			c.Count("rotations.second_right_after_first", 1)
+			e.w.emit("srv.rotate", map[string]interface{}{"salt": fmt.Sprint(newSalt), "again": t + 1})
+			c.Count("rotations.right_after_a_rejection", 1)
 		}
 		if !withTimeout(30*time.Second, wgR.Wait) {
 			fail(fmt.Sprintf("step%d-rejected", si))
 			return
+		}
+		if more > 0 && st.Rejected > 0 && !st.Announce {
+			// the last of the quick rotations may have come after the client's last message: one more call makes sure
+			// the client has met the salt now in force before the store is looked at
+			var wgL sync.WaitGroup
+			launch(1, false, &wgL)
+			if !withTimeout(30*time.Second, wgL.Wait) {
+				fail(fmt.Sprintf("step%d-after-rotations", si))
+				return
+			}
 		}
 		if !st.LateFirst {
 			release()
